@@ -22,6 +22,9 @@ def main(argv):
     if cmd == "check":
         from . import engine
         return engine.main_check(argv[1:])
+    if cmd == "baseline":
+        from . import baseline
+        return baseline.main(argv[1:])
     if cmd == "seed-eval":
         from . import seed
         return seed.main(argv[1:])
